@@ -222,7 +222,7 @@ struct Exec {
       c.waiting = false;
       if (!call(c, ci)) break;
       if (buf_policy == 1 && c.off > c.base) { c.buf.erase(c.buf.begin(), c.buf.begin() + (c.off - c.base)); c.base = c.off; }
-      if (++guard > 100000) { fail("C09", "client-livelock", "client made 100000 decoder calls on one delivery"); break; }
+      if (++guard > 20000000) { fail("C09", "client-livelock", "client made 100000 decoder calls on one delivery"); break; }
     }
   }
 };
@@ -257,7 +257,7 @@ void exec_stream(const J& plan) {
     g_log.ev("deliver", e.conn, sz, now); stat_add("fragments");
     X.pump(c, e.conn);
     if (c.sent < c.deliver_total) { uint64_t d = c.next_frag < c.delays.size() ? c.delays[c.next_frag] : 1; q.push(Event{now + d, seq++, e.conn}); }
-    if (++steps > 1000000) { fail("C09", "simulation-step-budget", "step budget exceeded"); break; }
+    if (++steps > 50000000) { fail("C09", "simulation-step-budget", "step budget exceeded"); break; }
   }
   g_run.sim_time = now;
   // no state between calls: the same windows, decoded again now that other connections' traffic has gone through the decoder
